@@ -1179,4 +1179,48 @@ theorem run_balanced_noSpace (buf : List Nat) (ops : List Op) (ns : List Node) (
   exact runNodes_noSpace ns (W.new buf) (by simp [W.new]) (by simpa [W.new] using hh) (by simp [W.new]) hl
     (by simpa [W.new] using hfit)
 
+
+/-! ## BIT STRING of named bits -/
+/-- `stripLen` cuts exactly the trailing zero bytes: what is cut is zeros, what is kept does not end in zero -/
+theorem stripLen_spec (s : List Nat) : ∀ n, n ≤ s.length → ∃ k, stripLen s n = .ok k ∧ k ≤ n ∧
+    (∀ i, k ≤ i → i < n → s[i]? = some 0) ∧ (0 < k → s[k - 1]? ≠ some 0) := by
+  intro n
+  induction n with
+  | zero => intro _; exact ⟨0, rfl, Nat.le_refl _, fun i h1 h2 => by omega, fun h => by omega⟩
+  | succ n ih =>
+    intro h
+    simp only [stripLen, index_eq s n (by omega), bind, Except.bind]
+    split
+    · rename_i h0
+      obtain ⟨k, hk, hle, hz, hnz⟩ := ih (by omega)
+      refine ⟨k, hk, by omega, ?_, hnz⟩
+      intro i h1 h2
+      by_cases hi : i = n
+      · subst hi; rw [List.getElem?_eq_getElem (by omega), h0]
+      · exact hz i h1 (by omega)
+    · rename_i h0
+      refine ⟨n + 1, rfl, Nat.le_refl _, fun i h1 h2 => by omega, fun _ => ?_⟩
+      simp only [Nat.add_sub_cancel, List.getElem?_eq_getElem (show n < s.length by omega)]
+      intro hc; injection hc with hc; exact h0 hc
+
+/-- **BIT STRING of named bits** (`bitstr(truncate = true, s)`): the content is the unused-bits count followed by
+`s` without its trailing zero bytes; the kept bytes do not end in a zero byte and the count is the number of
+trailing zero bits of the last kept byte (0 for the empty string) — DER's canonical form of a named bit list -/
+theorem bitstrContent_true_spec (s : List Nat) :
+    ∃ k u, k ≤ s.length ∧ bitstrContent true s = u :: s.take k ∧ (∀ i, k ≤ i → i < s.length → s[i]? = some 0) ∧
+      (k = 0 → u = 0) ∧ (0 < k → ∃ x, s[k - 1]? = some x ∧ x ≠ 0 ∧ u = tz 8 x) := by
+  obtain ⟨k, hk, hle, hz, hnz⟩ := stripLen_spec s s.length (Nat.le_refl _)
+  by_cases h0 : 0 < k
+  · have hx : k - 1 < s.length := by omega
+    refine ⟨k, tz 8 s[k - 1], hle, ?_, hz, fun h => by omega, fun _ => ⟨s[k - 1], List.getElem?_eq_getElem hx, ?_, rfl⟩⟩
+    · simp [bitstrContent, bitstrParts, hk, h0, RBuf.csub, show 1 ≤ k by omega, index_eq s (k - 1) hx, RBuf.slice, hle,
+        bind, Except.bind, pure, Except.pure]
+    · have := hnz h0
+      rw [List.getElem?_eq_getElem hx] at this
+      intro hc; exact this (by rw [hc])
+  · have : k = 0 := by omega
+    subst this
+    refine ⟨0, 0, Nat.zero_le _, ?_, hz, fun _ => rfl, fun h => by omega⟩
+    simp [bitstrContent, bitstrParts, hk, RBuf.slice, bind, Except.bind, pure, Except.pure]
+
 end Codec.Der
